@@ -910,6 +910,9 @@ class SetIndex(BaseSetIndexSortValues):
                 self, parent, dependents, additional_columns=addition_columns
             )
             columns = _convert_to_list(columns)
+            # other dependents may refer to columns by names that do not exist
+            # below (e.g. a rename on top of us)
+            columns = [col for col in self.frame.columns if col in columns]
             if self.frame.columns == columns:
                 return
             return type(parent)(
